@@ -575,6 +575,16 @@ def rule_TRIMREF(ctx, rid='S5'):
             cand = (st.targets[0].id, unparse(st.value.args[0]))
     ctx.require(cand, 'S5 not decided: Union.trim does not pick its candidate by argmin')
     idx, rec = cand
+    for st in walk_no_nested(f.node):
+        if isinstance(st, ast.Assign) and len(st.targets) == 1 and \
+                isinstance(st.targets[0], ast.Name) and st.targets[0].id == idx and \
+                isinstance(st.value, ast.Call):
+            low = (dotted(st.value.func) or '').endswith('argmin') != (
+                isinstance(st.value.args[0], ast.UnaryOp) and
+                isinstance(st.value.args[0].op, ast.USub))
+            ctx.ob(rid, 'Union.trim:candidate-is-the-lowest-density', low, f.where(st),
+                   'the candidate is the member with the lowest density' if low else
+                   '`%s` selects the DENSEST member as the one to drop' % unparse(st)[:50])
     refs = []
     for t in walk_no_nested(f.node):
         if not isinstance(t, ast.If):
